@@ -1537,8 +1537,12 @@ Plan generate(const std::string& mode, uint64_t seed, uint64_t run) {
       if (depth <= L)
         op.set("value", toText(v)).set("loose", 1);
     } else {
-      // thousands of openers (never closed), optionally truncated
+      // thousands of openers (never closed); or exactly L+1 of them and then the end of the input:
+      // TooDeep is due as soon as the opener at depth L+1 has been seen
       size_t n = size_t(r.chance(1, 4) ? 1000 + r.below(200000) : 300 + r.below(3000));
+      bool exact = r.chance(1, 3);
+      if (exact)
+        n = size_t(L) + 1;
       unsigned shape = unsigned(r.below(4));
       for (size_t j = 0; j < n; j++) {
         if (mp) {
@@ -1571,6 +1575,8 @@ Plan generate(const std::string& mode, uint64_t seed, uint64_t run) {
           }
         }
       }
+      if (exact && !mp && r.chance(1, 2))
+        b += r.chance(1, 2) ? " " : "\n\t ";
       op.set("expect", "TooDeep").set("cls", "C15:too-deep-iff").setq("why", std::to_string(n) + " unclosed openers");
     }
     op.setq("b", b);
